@@ -36,7 +36,8 @@ def make_events(rng, n):
     return beta, alt, E, lat, lon
 
 
-def sequential(ev, cloudf=None, det=525.0):
+def sequential(ev, cloudf="default", det=525.0):
+    cloudf = sched.VaryingCloud() if cloudf == "default" else cloudf
     from nuspacesim.simulation.eas_optical.cphotang import CphotAng
 
     k = CphotAng(det)
@@ -44,9 +45,10 @@ def sequential(ev, cloudf=None, det=525.0):
     return np.asarray([o[0] for o in out]), np.array([o[1] for o in out])
 
 
-def batch(ev, cloudf=None, det=525.0, kernel=None):
+def batch(ev, cloudf="default", det=525.0, kernel=None):
     from nuspacesim.simulation.eas_optical.cphotang import CphotAng
 
+    cloudf = sched.VaryingCloud() if cloudf == "default" else cloudf
     k = kernel or CphotAng(det)
     with contextlib.redirect_stdout(io.StringIO()):
         return k(*ev, cloudf)
@@ -205,14 +207,14 @@ def shard(ctx, si, payload):
                 ctx.distinct.add(("fault", name, n, pos, exc.__name__))
                 try:
                     with dask.config.set(**kw):
-                        got = batch(sub(n), cloudf=sched.FailAt(pos, exc=exc))
+                        got = batch(sub(n), cloudf=sched.FailAt(pos, top="varying", exc=exc))
                 except Exception:
                     continue  # expected: the failure surfaces as an error of the batch call
                 ref = seqn(n)
                 ctx.violation("faults", f"{name}: event {pos} of {n} failed with {exc.__name__} but the batch call returned normally ({got[0].shape[0] if got[0].ndim else 'scalar'} results; {describe_diff(got, ref) if got[0].ndim else ''})", {"scheduler": name, "n": n, "position": pos})
         # a fault-free run with the same cloud function must still equal the model
         with dask.config.set(scheduler="synchronous"):
-            judge(batch(sub(25), cloudf=sched.FailAt(None)), 25, "faults-control", "fault-free control with the fault-capable cloud function", {})
+            judge(batch(sub(25), cloudf=sched.FailAt(None, top="varying")), 25, "faults-control", "fault-free control with the fault-capable cloud function", {})
 
 
 def run(ctx):
@@ -237,6 +239,6 @@ def run(ctx):
     for m in ("scheduler", "partitions", "adversarial", "yield", "frozen-state", "faults", "faults-control"):
         ctx.require(m)
     return ctx.finish(
-        rule="batches of {1,2,99,100,101,250} unique events under every scheduler family; partition sizes {1,2,3,7,100,n,n+1}; adversarial start/release orders (seeded, and all P! start orders for P = 4 [5 in thorough]); yield-injected 4-thread runs with the shared kernel frozen; a failing event at every position of 25 and at {0,99,100,125,249} of 250; a case is a distinct (family, schedule / scheduler / partitioning / fault position); every one is non-trivial (it is compared with the sequential model or must raise)",
+        rule="batches of {1,2,99,100,101,250} unique events, each with its own cloud top (a position-dependent cloud function), under every scheduler family; partition sizes {1,2,3,7,100,n,n+1}; adversarial start/release orders (seeded, and all P! start orders for P = 4 [5 in thorough]); yield-injected 4-thread runs with the shared kernel frozen; a failing event at every position of 25 and at {0,99,100,125,249} of 250; a case is a distinct (family, schedule / scheduler / partitioning / fault position); every one is non-trivial (it is compared with the sequential model or must raise)",
         assumptions=["dask's synchronous/threads/processes schedulers and its pool= hook", "a finite set of start/release orders and switch points is explored (all start orders only for <= 5 partitions)", "spawned dask workers re-import nssmon.__main__ and therefore also use the source-built stepping function", "CPython-level races are attacked by forced GIL hand-offs at LINE events, not by a race detector (TSan is noise on CPython)"],
     )
